@@ -402,6 +402,10 @@ def e2e_check(pid, tier, scenarios, trace_spec, corrupt, note, mc_cfgs=(), threa
                     if not verdict.violations:
                         raise
                     continue
+                except Exception as err:      # the binding is supplementary: it never decides a check
+                    log("MODEL-DRIFT check=%s mechanism trace could not be projected: %s" % (pid, err))
+                    cov["mechanism_trace"] = {"error": str(err)}
+                    continue
                 prev = cov.get("mechanism_trace")
                 if prev:
                     for k in ("connections", "events", "accepted_connections", "states"):
@@ -502,7 +506,7 @@ def c04(tier):
         ["termination styles x codes x reasons x life-cycle points x roles against a raw QUIC peer; "
          "expected cause computed by Session!SessionOutcome from the bytes the peer actually wrote",
          "a capsule is carried in one DATA frame; steps are separated by 30-200 ms barriers"],
-        mc_cfgs=[("WireMC.tla", "WireMC_quick.cfg")], par=6, threads=4)
+        mc_cfgs=[("WireMC.tla", "WireMC_quick.cfg")], par=6, threads=4, mech=True)
 
 
 PROPS["C04"] = c04
@@ -529,7 +533,7 @@ def c01(tier):
          "and non-shortest varints) cut at every position with 25 ms gaps; streams the endpoint opens recorded byte for byte by the raw peer",
          "session id is 0 on a fresh connection (larger ids covered at the sans-IO layer)"],
         mc_cfgs=[("StreamPipeMC.tla", "StreamPipe_%s.cfg" % tier)], runs=2 if tier == "thorough" else 1,
-        par=4, threads=4)
+        par=4, threads=4, mech=True)
 
 
 PROPS["C01"] = c01
@@ -578,7 +582,7 @@ def c03(tier):
          "relative to the maximum measured at run time, live/foreign/non-shortest quarter ids from the peer, "
          "both directions interleaved between two wtransport endpoints",
          "loss is allowed: a receive that times out is not judged; the maximum is read immediately before and after each send"],
-        mc_cfgs=[("DatagramMC.tla", "DatagramMC.cfg")])
+        mc_cfgs=[("DatagramMC.tla", "DatagramMC.cfg")], mech=True)
 
 
 PROPS["C03"] = c03
@@ -824,7 +828,7 @@ def c05(tier):
          "timing: whether a tear manifests depends on the scheduler; a scenario that passes is not proof of absence "
          "(D6, the tear of frames read inside the worker's select loop, was found here and is fixed by b91be3c)"],
         mc_cfgs=[("WireMC.tla", "WireMC_quick.cfg")], mc_results=mc, par=4, threads=4, case_of=_case_c05,
-        runs=2 if tier == "thorough" else 1, extra_cov=extra)
+        runs=2 if tier == "thorough" else 1, extra_cov=extra, mech=True)
 
 
 PROPS["C05"] = c05
